@@ -29,6 +29,10 @@ func run(evm *EVM, contract *Contract, input []byte) ([]byte, error) {
 			if *contract.CodeAddr == params.TermRewardContract && contract.caller.GetAddress() != evm.vmConfig.RewardManager {
 				return nil, ErrTermReward
 			}
+			// It writes the reward into its storage. enforceRestrictions sees opcodes only, so refuse it here in a read-only call
+			if *contract.CodeAddr == params.TermRewardContract && evm.interpreter.readOnly {
+				return nil, errWriteProtection
+			}
 			return RunPrecompiledContract(p, input, contract, evm)
 		}
 	}
